@@ -1,82 +1,48 @@
 """C32 -- a v1 certificate is reported only if it verifies the signature file.
 
-Typestate "verified", decided on the CFGs of three functions of androguard/core/apk/__init__.py
-(nothing is executed; the `cryptography`/`asn1crypto` libraries are trusted):
+Rule (interpretation with symbolic library objects; the repository is never imported, `cryptography`/`asn1crypto`
+are trusted and modelled as opaque terms).  agstatic/minipy.py interprets the repository source; PKCS#7 objects, keys and
+hash objects are symbolic terms (`signer_info['signed_attrs'].dump()[1:]` is a term, a comparison or isinstance on a
+term is a choice point and every outcome is explored; helper methods, lookup tables, for/else, next(generator), guard
+clauses, De Morgan variants are simply executed).  `<key>.verify(sig, data, ...)` is an event whose outcome (returns /
+raises InvalidSignature) is a choice; `h.update(x)` / `h.digest()` build a digest term that remembers what was hashed.
 
-(V) APK.verify_signature(signer_info, cert, data, hash).  A *certificate site* is a statement
-    that stores a non-None value into a returned variable or returns a non-None expression.
-    Every certificate site must be unreachable from the entry once the *normal* out-edges of
-    all valid `public_key.verify(...)` statements are removed (exception edges stay): so the
-    value exists only after a verify call returned normally -- not on the InvalidSignature
-    arm, not for an unsupported key type.  A verify statement is valid when its receiver is
-    derived only from the certificate parameter, its first argument from
-    signer_info['signature'] and its second argument *is* the data parameter.  The stored
-    value must be derived from the certificate parameter only.
-(S) APK.verify_signer_info_against_sig_file.  Every return is None or the result of a
-    verify_signature call.  Each such call passes the signer_info parameter, the certificate
-    found by find_certificate(certificates, signer_info) behind a None-guard that leaves, and
-    as data either (a) the sf_object parameter -- only reachable through the "no signed
-    attributes" edge of the test on signer_info['signed_attrs'] -- or (b) the re-tagged dump
-    b'\\x31' + signer_info['signed_attrs'].dump()[1:] -- only reachable through the "signed
-    attributes present" edge and through the *match* edge of a comparison between the digest
-    of sf_object (hash from get_hash_algorithm(signer_info), updated with sf_object only) and
-    the messageDigest attribute (OID 1.2.840.113549.1.9.4) of the signed attributes.
-(D) APK.get_certificate_der.  Every value that can reach a return is None or flows from a
-    verify_signer_info_against_sig_file result; the handlers around that call leave with
-    `return None`; the .SF passed is get_file(<signature file name with extension .SF>) and
-    the PKCS#7 data/signer infos/certificates come from get_file(filename).
-    get_certificates_v1 / get_certificate draw only from get_certificate_der.
+(S+V) APK.verify_signer_info_against_sig_file (calling verify_signature for real) is run for signed attributes present /
+absent, every cell of the partition of max_sdk_version induced by the constants it is compared with, certificate found / not
+found, twice in a row with different .SF bytes (so a value remembered from the first call cannot vouch for the second).  On
+every explored path that returns a certificate: a verify event of *this* call returned normally, its key is derived from
+the certificate found for the SignerInfo, its signature is signer_info['signature'], its data is the .SF parameter (no
+signed attributes) or b'\\x31' + signer_info['signed_attrs'].dump()[1:] (signed attributes), in which case a comparison
+between the digest of exactly the .SF bytes and a value of the signed attributes came out equal on this path; and the
+returned value is derived from that certificate.
+(D) APK.get_certificate_der (with the function above replaced by a three-way stub: returns a certificate / None / raises)
+for three file names: a returned value is one of the stub's results, obtained for get_file(<name>.SF), the PKCS#7 object
+loaded from get_file(name) and its own signer_infos/certificates; once the stub raised, None is returned.
+get_certificates_v1 / get_certificate only report Certificate.load(get_certificate_der(...)).
+A VIOLATION needs a path with known terms that contradicts the above; anything the interpreter cannot model is exit 2.
 """
 from __future__ import annotations
 
 import ast
 
-from ..cfg import CFG, leaves_only
+from ..minipy import (Interp, Obj, ClassV, FuncV, Native, PyRaise, Sym, Role, Free, term_of, has_subterm, subterms, show_term,
+                      all_paths)
 from ..model import APK, AnalysisError, norm, parent, walk_no_nested
-from ..pathkit import (Ev, NotEvaluable, truths, Defs, reach, branch_edges, normal_out_edges, stmt_of,
-                       catches, reaching_defs, resolve_at, run_mutants, rename_locals, flip_ifs, neq_to_not_eq)
+from ..pathkit import NotEvaluable, order_points, run_mutants, rename_locals, flip_ifs, neq_to_not_eq
 
+OWN_MUTATION_ADEQUACY = True   # thorough() below mutates the anchored functions in memory (pathkit.run_mutants)
 OID_MESSAGE_DIGEST = "1.2.840.113549.1.9.4"   # RFC 5652, id-messageDigest
+MD_NAMES = (OID_MESSAGE_DIGEST, "message_digest")
 SET_TAG = b"\x31"                             # DER tag of SET OF (signed attributes are signed with it)
+
+SI = ("in", "signer_info")
+ATTRS = ("sub", SI, "signed_attrs")
+PRESENCE_TERMS = (ATTRS, ("attr", ATTRS, "native"))
+RETAGGED = ("binop", "Add", SET_TAG, ("slice", ("call", ("attr", ATTRS, "dump"), (), ()), 1, None))
 
 
 def _is_none(e):
     return isinstance(e, ast.Constant) and e.value is None
-
-
-def closure_nodes(defs, expr):
-    """all AST nodes in the backward data-flow closure of expr over the function's may-defs"""
-    out, seen, todo = [], set(), [expr]
-    while todo:
-        e = todo.pop()
-        for n in ast.walk(e):
-            out.append(n)
-            if isinstance(n, (ast.Name, ast.Attribute)):
-                k = ast.unparse(n)
-                if k not in seen and defs.of(k):
-                    seen.add(k)
-                    for kind, v, st in defs.of(k):
-                        if v is not None:
-                            todo.append(v)
-    return out
-
-
-def has_subscript(nodes, base_name, const):
-    for n in nodes:
-        if isinstance(n, ast.Subscript) and isinstance(n.slice, ast.Constant) and n.slice.value == const:
-            if base_name is None or (isinstance(n.value, ast.Name) and n.value.id == base_name):
-                return True
-    return False
-
-
-def alias_of(cfg, defs, e, at, param):
-    """is e (evaluated at statement `at`) exactly the parameter `param` (possibly through plain copies)?"""
-    e2, _ = resolve_at(cfg, defs, e, at)
-    return isinstance(e2, ast.Name) and e2.id == param and not defs.of(param)
-
-
-def method_calls(node, name):
-    return [c for c in walk_no_nested(node) if isinstance(c, ast.Call) and isinstance(c.func, ast.Attribute) and c.func.attr == name]
 
 
 def pos_params(func):
@@ -85,571 +51,408 @@ def pos_params(func):
     return ps if static else ps[1:]
 
 
-def call_args(call, callee_params):
-    """positional/keyword arguments of a call mapped on the callee's parameter names"""
-    vals = dict(zip(callee_params, call.args))
-    for k in call.keywords:
-        if k.arg:
-            vals[k.arg] = k.value
-    return vals
+class Run:
+    """one interpreted path: interpreter + the events the rule looks at"""
+
+    def __init__(self, core, decisions, present=None):
+        self.core = core
+        self.present = present
+        self.verifies = []      # (recv term, sig term, data term, ok, node, qualname)
+        self.updates = {}       # (epoch, hash object term) -> [arg terms]
+        self.epoch = 0          # top-level invocation counter: hash objects of different invocations are different objects
+        self.stub_calls = []    # (qualname, args dict, result)
+        self.raised_in_stub = False
+        hooks = {"func": self.func_hook, "symcall": self.symcall, "symtruth": self.symtruth, "symiter": self.symiter, "symcompare": self.symcompare}
+        self.it = Interp(core.ctx.repo, None, hooks, decisions, max_steps=200000)
+        self.stubs = {}
+
+    # ---- library model
+    def symcall(self, it, f, args, kwargs, node):
+        t = f.term
+        if t[0] == "attr" and t[2] == "verify" and len(args) >= 2:
+            key = ("verify", t[1], tuple(term_of(a) for a in args[:2]))
+            ok = it.choose(key, "")
+            it.trace.append(("choice", "`%s` accepts the signature" % show_term(t)[:40], it.qual(), ok))
+            self.verifies.append((t[1], term_of(args[0]), term_of(args[1]), ok, node, it.qual()))
+            if not ok:
+                raise PyRaise("InvalidSignature", node)
+            return None
+        if t[0] == "attr" and t[2] == "update" and len(args) == 1:
+            self.updates.setdefault((self.epoch, t[1]), []).append(term_of(args[0]))
+            return None
+        if t[0] == "attr" and t[2] in ("digest", "hexdigest") and not args:
+            h = t[1]
+            first = list(h[2]) if (isinstance(h, tuple) and h[0] == "call" and h[2]) else []
+            return Sym(("digest", h, tuple(first + self.updates.get((self.epoch, h), []))))
+        return NotImplemented
+
+    def symtruth(self, it, v, node):
+        if self.present is not None and v.term in PRESENCE_TERMS:
+            return self.present
+        if self.present is not None and has_subterm(v.term, ATTRS) and v.term[0] in ("call",) and v.term[1] == ("ext", "len"):
+            return self.present
+        return NotImplemented
+
+    def symiter(self, it, v, node):
+        if self.present is not None and v.term == ATTRS:
+            if not self.present:
+                return []
+            out = [Sym(("elem", ATTRS, 0))]
+            more = it.choose(("iter", ATTRS, 1), "")
+            it.trace.append(("choice", "the signed attributes have a second element", it.qual(), more))
+            if more:
+                out.append(Sym(("elem", ATTRS, 1)))
+            return out
+        if self.present is not None and has_subterm(v.term, ATTRS) and v.term != ATTRS and v.term[0] != "sub" and v.term[0] != "elem":
+            raise NotEvaluable("iteration over %s" % show_term(v.term)[:60])
+        return NotImplemented
+
+    def symcompare(self, it, opn, a, b, node):
+        if self.present is None:
+            return NotImplemented
+        for x, y in ((a, b), (b, a)):
+            if isinstance(x, Sym) and (x.term in PRESENCE_TERMS or (x.term[0] == "call" and x.term[1] == ("ext", "len") and x.term[2] and x.term[2][0] in PRESENCE_TERMS)):
+                if isinstance(y, Free):
+                    raise NotEvaluable("comparison of the signed attributes with an unknown value")
+                is_len = x.term[0] == "call"
+                empty = (y is None or y == [] or y == () or y == {} or y == b"" or y == "") if not is_len else None
+                if not is_len and empty and opn in ("Is", "Eq", "NotEq"):
+                    r = not self.present
+                    return r if opn != "NotEq" else not r
+                if is_len and isinstance(y, int) and not isinstance(y, bool):
+                    n = 1 if self.present else 0     # >= 1 attribute when present
+                    swapped = x is b
+                    table = {"Eq": n == y, "NotEq": n != y, "Gt": (y > n) if swapped else (n > y), "GtE": (y >= n) if swapped else (n >= y),
+                             "Lt": (y < n) if swapped else (n < y), "LtE": (y <= n) if swapped else (n <= y)}
+                    if y in (0, 1) and opn in table and not (self.present and y == 1 and opn in ("Eq", "NotEq", "Gt", "LtE") ):
+                        return table[opn]
+                raise NotEvaluable("presence test of the signed attributes: %s" % (ast.unparse(node)[:60] if node is not None else opn))
+        return NotImplemented
+
+    # ---- repository functions replaced by models
+    def func_hook(self, it, fv, loc, node):
+        fn = self.stubs.get(fv.qualname)
+        if fn is None:
+            return NotImplemented
+        return fn(it, fv, loc, node)
 
 
 class Core:
     def __init__(self, ctx):
         self.ctx = ctx
         self.m = ctx.mod(APK)
+        self.apk = self.m.cls("APK")
 
-    # ================================================================== (V)
-    def verify_signature(self):
-        ctx = self.ctx
-        f = self.vs = self.m.func("APK.verify_signature")
-        ctx.analysed(f)
+    # ================================================================== (S+V)
+    def signer_paths(self, present, max_sdk, cert_found):
+        f = self.si
         ps = pos_params(f)
-        ctx.require(len(ps) >= 4, "verify_signature(signer_info, certificate, data, hash) signature changed")
-        p_si, p_cert, p_data, p_hash = ps[:4]
-        self.vs_params = ps
-        node = f.node
-        cfg = CFG(node)
-        defs = Defs(node)
-        for p in (p_si, p_cert, p_data):
-            ctx.require(not defs.of(p), "verify_signature reassigns its parameter %s: outside the analysed fragment" % p)
-        # ---- verify statements
-        valid = []
-        for c in method_calls(node, "verify"):
-            ctx.count("verify_calls")
-            st = stmt_of(c, node)
-            recv_nodes = closure_nodes(defs, c.func.value)
-            recv_params = defs.root_params(c.func.value)
-            ok_recv = recv_params == {p_cert}
-            args = list(c.args)
-            ok_sig = ok_data = False
-            why = []
-            if len(args) >= 2:
-                sig_nodes = closure_nodes(defs, args[0])
-                ok_sig = defs.root_params(args[0]) == {p_si} and has_subscript(sig_nodes, p_si, "signature")
-                ok_data = alias_of(cfg, defs, args[1], st, p_data)
-                if not ok_data and defs.root_params(args[1]) == {p_data}:
-                    raise AnalysisError("verify_signature: the verified bytes `%s` are derived from but not identical to the data parameter" % norm(args[1]))
-            if not ok_recv:
-                why.append("the key is derived from %s, not only from the certificate parameter `%s`" % (sorted(recv_params) or "no parameter", p_cert))
-            if not ok_sig:
-                why.append("the first argument is not %s['signature']" % p_si)
-            if not ok_data:
-                why.append("the second argument is not the data parameter `%s`" % p_data)
-            ok = ok_recv and ok_sig and ok_data
-            ctx.check("verify/operands", "verify #%d operands" % ctx.counts["verify_calls"], ok, f, c,
-                      "public-key verify call does not check %s['signature'] over `%s` with the key of `%s`: %s" % (p_si, p_data, p_cert, "; ".join(why)),
-                      node=c, detail="%s: key <- %s, signature <- %s['signature'], data is parameter %s" % (norm(c.func), p_cert, p_si, p_data))
-            if ok:
-                valid.append(st)
-        # ---- certificate sites
-        sites = self.cert_sites(f, defs, "verify_signature")
-        gate_edges = [e for st in valid for e in normal_out_edges(cfg, st)]
-        for kind, st, val in sites:
-            ctx.count("cert_sites_verify_signature")
-            gated = bool(valid) and not reach(cfg, cfg.entry, st, avoid_edges=gate_edges)
-            ctx.check("verify/gating", "certificate site `%s`" % norm(st)[:60], gated, f, st,
-                      "verify_signature can produce the certificate at `%s` on a path where no public_key.verify(...) call returned normally "
-                      "(e.g. the InvalidSignature arm, an unsupported key type, or before verification)" % norm(st)[:90], node=st,
-                      detail="unreachable from the entry once the normal out-edges of the %d verify statements are cut" % len(valid))
-            rp = defs.root_params(val)
-            ctx.check("verify/which-certificate", "value at `%s`" % norm(st)[:60], rp == {p_cert}, f, val,
-                      "the value reported as verified certificate is derived from %s, not from the certificate parameter `%s` whose key was used"
-                      % (sorted(rp) or "no parameter", p_cert), node=st, detail="value derived only from parameter %s" % p_cert)
-        ctx.count("return_sites", len([n for n in walk_no_nested(node) if isinstance(n, ast.Return)]))
+        rec = self.sdk_rec
 
-    def cert_sites(self, f, defs, where):
-        """statements that make a non-None value reach a return: [(kind, stmt, value expr)]"""
-        sites, seen = [], set()
+        def run(decisions):
+            r = Run(self, decisions, present)
+            it = r.it
+            cert = Sym(("cert", ("in", "certificates"), SI))
 
-        def var_sites(key):
-            if key in seen:
-                return
-            seen.add(key)
-            for kind, v, st in defs.of(key):
-                s = st if isinstance(st, ast.stmt) else stmt_of(st, f.node)
-                if kind == "assign" and _is_none(v):
+            def find_certificate(it_, fv, loc, node):
+                r.stub_calls.append((fv.qualname, dict(loc), cert if cert_found else None))
+                return cert if cert_found else None
+
+            def get_hash_algorithm(it_, fv, loc, node):
+                a = term_of(loc.get(pos_params(fv.func)[0])) if fv.func is not None else None
+                return (Sym(("hashlib_ctor", a)), Sym(("crypto_hash", a)))
+            r.stubs = {"APK.find_certificate": find_certificate, "APK.get_hash_algorithm": get_hash_algorithm,
+                       "APK.canonical_name": lambda it_, fv, loc, node: Sym(("canonical_name", term_of(loc.get("name"))))}
+            self_obj = Obj(self.apk)
+            outs = []
+            for k in (1, 2):
+                sf = Sym(("in", "sf_object#%d" % k))
+                args = {ps[0]: Sym(("in", "signed_data")), ps[1]: Sym(("in", "certificates")), ps[2]: Sym(SI), ps[3]: sf}
+                if len(ps) > 4:
+                    args[ps[4]] = None if max_sdk is None else Role(max_sdk, "max_sdk", rec)
+                r.epoch = k
+                v0, c0 = len(r.verifies), len(it.sym_cmps)
+                try:
+                    val = it.call(it.get_attr(self_obj, f.node.name), [args[p] for p in ps[:5]], {})
+                    out = ("return", val)
+                except PyRaise as e:
+                    out = ("raise", e.name, e.node)
+                outs.append((out, sf.term, r.verifies[v0:], it.sym_cmps[c0:], cert.term))
+            return it, (r, outs)
+        try:
+            return all_paths(run, max_runs=6000)
+        except NotEvaluable as e:
+            raise AnalysisError("verify_signer_info_against_sig_file / verify_signature left the interpretable fragment: %s" % e)
+
+    @staticmethod
+    def _path_desc(it):
+        cs = [t for t in it.trace if t[0] == "choice"]
+        return "; ".join("%s is %s" % (w, v) for _, w, _, v in cs[-6:])
+
+    def judge_signer(self, present, it, out, sf, verifies, cmps, cert):
+        """-> None | (rule, construct node/str, func, message)   (raises NotEvaluable when a term is not understood)"""
+        if out[0] != "return" or out[1] is None:
+            return None
+        R = out[1]
+        what = "with signed attributes" if present else "without signed attributes"
+        fV = self.m.functions.get(verifies[-1][5]) if verifies else None
+        ok_events = [v for v in verifies if v[3]]
+        if isinstance(R, (bool, int, str)) and not isinstance(R, Sym):
+            raise NotEvaluable("verify_signer_info_against_sig_file returns %r" % (R,))
+        if not ok_events:
+            where = None
+            if verifies:
+                where = self.m.functions.get(verifies[-1][5])
+            else:
+                cs = [t for t in it.trace if t[0] == "choice"]
+                where = self.m.functions.get(cs[-1][2]) if cs else None
+            return ("verify/gating", "certificate returned without a successful verify", where or self.si,
+                    "%s a certificate (%s) is returned on a path where no public-key verify call of this invocation returned normally [%s]"
+                    % (what, show_term(term_of(R))[:60], self._path_desc(it)))
+        want = RETAGGED if present else sf
+        good = [v for v in ok_events if v[2] == want]
+        if not good:
+            v = ok_events[-1]
+            if any(isinstance(x, tuple) and x and x[0] == "free" for x in subterms(v[2])):
+                raise NotEvaluable("the verified bytes are not a known term")
+            callers_choice = v[2] == sf or has_subterm(v[2], ATTRS)
+            return ("signer/data", ("bytes verified %s" % what) if callers_choice else v[4], self.si if callers_choice else (self.m.functions.get(v[5]) or self.si),
+                    "%s the signature is verified over %s instead of %s" % (what, show_term(v[2])[:80], "b'\\x31' + signed_attrs.dump()[1:]" if present else "the .SF bytes"))
+        v = good[-1]
+        if not has_subterm(v[1], ("sub", SI, "signature")):
+            return ("verify/operands", v[4], self.m.functions.get(v[5]) or self.si, "the verified signature value is %s, not signer_info['signature']" % show_term(v[1])[:60])
+        if not has_subterm(v[0], cert):
+            return ("verify/operands", v[4], self.m.functions.get(v[5]) or self.si,
+                    "the verifying key %s is not derived from the certificate referenced by the SignerInfo" % show_term(v[0])[:80])
+        if not has_subterm(term_of(R), cert):
+            return ("verify/which-certificate", "returned value", self.si, "the reported value %s is not derived from the certificate whose key verified" % show_term(term_of(R))[:80])
+        if present:
+            dig = []
+            for opn, a, b, res, node, q in cmps:
+                if opn not in ("Eq", "NotEq"):
                     continue
-                sites.append((kind, s, v))
-
-        for r in (n for n in walk_no_nested(f.node) if isinstance(n, ast.Return)):
-            v = r.value
-            if v is None or _is_none(v):
-                continue
-            if isinstance(v, ast.Name) and defs.of(v.id):
-                var_sites(v.id)
-            else:
-                sites.append(("return", r, v))
-        return sites
-
-    # ================================================================== (S)
-    def signer_info(self):
-        ctx = self.ctx
-        f = self.si = self.m.func("APK.verify_signer_info_against_sig_file")
-        ctx.analysed(f)
-        ps = pos_params(f)
-        ctx.require(len(ps) >= 4, "verify_signer_info_against_sig_file signature changed")
-        p_sd, p_certs, p_si, p_sf = ps[:4]
-        self.si_params = ps
-        node = f.node
-        cfg = CFG(node)
-        defs = Defs(node)
-        for p in (p_certs, p_si, p_sf):
-            ctx.require(not defs.of(p), "verify_signer_info_against_sig_file reassigns its parameter %s" % p)
-        calls = method_calls(node, self.vs.node.name)
-        ctx.count("verify_signature_calls", len(calls))
-        # ---- returns
-        for r in (n for n in walk_no_nested(node) if isinstance(n, ast.Return)):
-            ctx.count("return_sites")
-        for kind, st, v in self.cert_sites(f, defs, "signer"):
-            ok = kind in ("assign", "return") and any(v is c for c in calls)
-            ctx.check("signer/returns", "returned value `%s`" % norm(st)[:60], ok, f, st,
-                      "verify_signer_info_against_sig_file can return a value that is not the result of verify_signature: `%s`" % norm(st)[:90], node=st,
-                      detail="the value is the result of %s" % norm(v.func) if ok else "")
-        # ---- the signed-attributes presence test
-        P = [n for n in walk_no_nested(node) if isinstance(n, ast.If) and has_subscript(list(ast.walk(n.test)), p_si, "signed_attrs")]
-        ctx.require(len(P) == 1, "expected exactly one test on %s['signed_attrs'] (found %d)" % (p_si, len(P)))
-        P = P[0]
-        present_val = self._presence_polarity(P, p_si)
-        vparams = self.vs_params
-        n_direct = n_attrs = 0
-        for c in calls:
-            st = stmt_of(c, node)
-            a = call_args(c, vparams)
-            ctx.require(all(k in a for k in vparams[:3]), "verify_signature call does not pass signer_info, certificate and data")
-            a_si, a_cert, a_data = a[vparams[0]], a[vparams[1]], a[vparams[2]]
-            label = "call `%s`" % norm(c)[:70]
-            # signer info
-            ctx.check("signer/args", label + " signer_info", alias_of(cfg, defs, a_si, st, p_si), f, c,
-                      "verify_signature is not given the signer_info parameter `%s` (got `%s`)" % (p_si, norm(a_si)), node=c,
-                      detail="first argument is parameter %s" % p_si)
-            # certificate: find_certificate(certificates, signer_info) behind a None guard
-            ce, cst = resolve_at(cfg, defs, a_cert, st)
-            ok_find = isinstance(ce, ast.Call) and isinstance(ce.func, ast.Attribute) and ce.func.attr == "find_certificate" and len(ce.args) >= 2 \
-                and alias_of(cfg, defs, ce.args[0], cst, p_certs) and alias_of(cfg, defs, ce.args[1], cst, p_si)
-            ctx.check("signer/certificate", label + " certificate", ok_find, f, c,
-                      "the certificate passed to verify_signature (`%s`) is not find_certificate(%s, %s)" % (norm(a_cert), p_certs, p_si), node=c,
-                      detail="certificate <- %s" % norm(ce)[:70])
-            if ok_find and isinstance(a_cert, ast.Name):
-                self._none_guard(f, cfg, a_cert.id, st, c)
-            # data: which arm of the signed-attributes test is the call on?
-            only_present = not reach(cfg, cfg.entry, st, avoid_edges=branch_edges(cfg, P, present_val))
-            only_absent = not reach(cfg, cfg.entry, st, avoid_edges=branch_edges(cfg, P, not present_val))
-            if only_absent and not only_present:
-                n_direct += 1
-                ok = alias_of(cfg, defs, a_data, st, p_sf)
-                ctx.check("signer/data", label + " without signed attributes the .SF itself is verified", ok, f, c,
-                          "without signed attributes verify_signature must be run over the .SF parameter `%s`, not over `%s`" % (p_sf, norm(a_data)), node=c,
-                          detail="arm `%s` is %s; data is parameter %s" % (norm(P.test)[:50], not present_val, p_sf))
-            elif only_present and not only_absent:
-                n_attrs += 1
-                if alias_of(cfg, defs, a_data, st, p_sf):
-                    ctx.check("signer/data", label + " verifies the re-tagged signed attributes", False, f, c,
-                              "verify_signature is run over the .SF bytes on a path where signed attributes are present "
-                              "(the signature must then be over the signed attributes)", node=c)
-                sym = self._sym(cfg, defs, a_data, st, p_si)
-                want = ("cat", ("const", SET_TAG), ("slice", ("dump", "ATTRS"), 1, None))
-                if not alias_of(cfg, defs, a_data, st, p_sf):
-                    ctx.check("signer/data", label + " verifies the re-tagged signed attributes", sym == want, f, c,
-                              "the bytes verified when signed attributes are present are not b'\\x31' + %s['signed_attrs'].dump()[1:] (derived: %s)" % (p_si, _show(sym)),
-                              node=c, detail="arm `%s` is %s; data = %s" % (norm(P.test)[:50], present_val, _show(sym)))
-                self._digest_gate(f, cfg, defs, st, c, p_si, p_sf)
-            else:
-                ctx.check("signer/data", label + " is under the signed-attributes test", False, f, c,
-                          "verify_signature is called on a path that does not depend on whether signed attributes are present", node=c)
-        ctx.count("direct_sites", n_direct)
-        ctx.count("attrs_sites", n_attrs)
-
-    def _presence_polarity(self, P, p_si):
-        """value of P.test when signed attributes are present"""
-        keys = set()
-        for n in ast.walk(P.test):
-            if isinstance(n, ast.Subscript) and isinstance(n.slice, ast.Constant) and n.slice.value == "signed_attrs":
-                keys.add(ast.unparse(n))
-                par = parent(n)
-                if isinstance(par, ast.Attribute) and par.attr == "native":
-                    keys.add(ast.unparse(par))
-        res = {}
-        for name, val in (("present", [("attr",)]), ("absent", [])):
-            try:
-                tv = {v for _, v in truths(P.test, {k: val for k in keys}, atom_ok=lambda e: not has_subscript(list(ast.walk(e)), p_si, "signed_attrs"))}
-            except NotEvaluable as e:
-                raise AnalysisError("the test on signed attributes `%s` left the analysable fragment (%s)" % (norm(P.test), e))
-            if len(tv) != 1:
-                raise AnalysisError("the test `%s` does not depend on the signed attributes alone" % norm(P.test))
-            res[name] = tv.pop()
-        if res["present"] == res["absent"]:
-            raise AnalysisError("the test `%s` does not distinguish present from absent signed attributes" % norm(P.test))
-        self.ctx.ob("signer/presence", "test on signed attributes", True, "`%s` is %s when signed attributes are present" % (norm(P.test), res["present"]))
-        return res["present"]
-
-    def _none_guard(self, f, cfg, var, st, call):
-        ctx = self.ctx
-        ok = False
-        shown = None
-        for G in (n for n in walk_no_nested(f.node) if isinstance(n, ast.If)):
-            if not any(isinstance(n, ast.Name) and n.id == var for n in ast.walk(G.test)):
-                continue
-            try:
-                tv = {v for _, v in truths(G.test, {var: None}, atom_ok=lambda e: not any(isinstance(n, ast.Name) and n.id == var for n in ast.walk(e)))}
-            except NotEvaluable:
-                continue
-            if len(tv) != 1:
-                continue
-            v = tv.pop()
-            shown = G
-            leaves = all(not reach(cfg, t, st) and not reach(cfg, t, cfg.exit) and t is not cfg.exit for _, t in branch_edges(cfg, G, v))
-            gates = not reach(cfg, cfg.entry, st, avoid_nodes=[G])
-            if leaves and gates:
-                ok = True
-                break
-        ctx.count("none_guards")
-        ctx.check("signer/missing-certificate", "call `%s`: missing certificate raises" % norm(call)[:50], ok, f,
-                  shown.test if (shown is not None and not ok) else "guard on %s" % var if not ok else shown.test,
-                  "a SignerInfo whose certificate reference matches no certificate is not rejected before verify_signature "
-                  "(no `if %s is None: raise` that dominates the call)" % var, node=shown or call,
-                  detail="`if %s` leaves the function when %s is None and dominates the call" % (norm(shown.test) if shown is not None else "?", var))
-
-    def _sym(self, cfg, defs, e, at, p_si, depth=10):
-        """symbolic bytes value: ('const', b) | ('dump', 'ATTRS') | ('cat', a, b) | ('slice', v, lo, hi) | ('?', text)"""
-        if depth == 0:
-            return ("?", ast.unparse(e))
-        if isinstance(e, ast.Name) and defs.of(e.id):
-            e2, at2 = resolve_at(cfg, defs, e, at, depth=1)
-            if e2 is e:
-                return ("?", "ambiguous definition of %s" % e.id)
-            return self._sym(cfg, defs, e2, at2, p_si, depth - 1)
-        if isinstance(e, ast.Constant) and isinstance(e.value, bytes):
-            return ("const", e.value)
-        if isinstance(e, ast.Call) and ast.unparse(e.func) == "bytes" and len(e.args) == 1:
-            try:
-                return ("const", bytes(Ev()(e.args[0])))
-            except Exception:
-                return ("?", ast.unparse(e))
-        if isinstance(e, ast.BinOp) and isinstance(e.op, ast.Add):
-            return ("cat", self._sym(cfg, defs, e.left, at, p_si, depth - 1), self._sym(cfg, defs, e.right, at, p_si, depth - 1))
-        if isinstance(e, ast.Subscript) and isinstance(e.slice, ast.Slice) and e.slice.step is None:
-            try:
-                lo = None if e.slice.lower is None else Ev()(e.slice.lower)
-                hi = None if e.slice.upper is None else Ev()(e.slice.upper)
-            except NotEvaluable:
-                return ("?", ast.unparse(e))
-            return ("slice", self._sym(cfg, defs, e.value, at, p_si, depth - 1), lo, hi)
-        if isinstance(e, ast.Call) and isinstance(e.func, ast.Attribute) and e.func.attr == "dump" and not e.args:
-            r, _ = resolve_at(cfg, defs, e.func.value, at)
-            if isinstance(r, ast.Subscript) and isinstance(r.slice, ast.Constant) and r.slice.value == "signed_attrs" \
-                    and isinstance(r.value, ast.Name) and r.value.id == p_si:
-                return ("dump", "ATTRS")
-            return ("?", "dump of %s" % ast.unparse(r))
-        return ("?", ast.unparse(e))
-
-    def _digest_gate(self, f, cfg, defs, st, call, p_si, p_sf):
-        """the attrs call must sit behind the match edge of `digest(sf_object) == messageDigest attribute`"""
-        ctx = self.ctx
-        node = f.node
-        # names that hold <hash object>.digest()
-        digest_keys = {}
-        for n in walk_no_nested(node):
-            if isinstance(n, ast.Assign) and isinstance(n.value, ast.Call) and isinstance(n.value.func, ast.Attribute) \
-                    and n.value.func.attr == "digest" and len(n.targets) == 1 and isinstance(n.targets[0], ast.Name):
-                digest_keys[n.targets[0].id] = n
-        found = None
-        problems = []
-        for G in (n for n in walk_no_nested(node) if isinstance(n, ast.If)):
-            names = [n for n in ast.walk(G.test) if isinstance(n, ast.Name)]
-            act = [n for n in names if n.id in digest_keys]
-            inline = [n for n in ast.walk(G.test) if isinstance(n, ast.Call) and isinstance(n.func, ast.Attribute) and n.func.attr == "digest"]
-            if not act and not inline:
-                continue
-            cmp_ = [n for n in ast.walk(G.test) if isinstance(n, ast.Compare) and len(n.ops) == 1 and isinstance(n.ops[0], (ast.Eq, ast.NotEq))
-                    and any(x in ast.walk(n) for x in act + inline)]
-            if len(cmp_) != 1:
-                continue
-            cmp_ = cmp_[0]
-            sides = [cmp_.left, cmp_.comparators[0]]
-            a_side = [s for s in sides if any(x in list(ast.walk(s)) for x in act + inline)]
-            e_side = [s for s in sides if s not in a_side]
-            if len(a_side) != 1 or len(e_side) != 1:
-                continue
-            a_key, e_key = ast.unparse(a_side[0]), ast.unparse(e_side[0])
-
-            def atom_ok(e, a_key=a_key, e_key=e_key):
-                t = ast.unparse(e)
-                return a_key not in t and e_key not in t
-            try:
-                eq = {v for _, v in truths(G.test, {a_key: 7, e_key: 7}, atom_ok=atom_ok)}
-                ne = {v for _, v in truths(G.test, {a_key: 7, e_key: 9}, atom_ok=atom_ok)} | {v for _, v in truths(G.test, {a_key: 9, e_key: 7}, atom_ok=atom_ok)}
-            except NotEvaluable as e:
-                raise AnalysisError("digest comparison `%s` left the analysable fragment (%s)" % (norm(G.test), e))
-            # every path to the call must use an edge taken only when the digests are equal
-            match_only = eq - ne
-            gated = bool(match_only) and all(not reach(cfg, cfg.entry, st, avoid_edges=branch_edges(cfg, G, v)) for v in match_only) \
-                and all(not any(t is st or reach(cfg, t, st) for _, t in branch_edges(cfg, G, v)) for v in ne)
-            if not gated:
-                problems.append((G, "a digest mismatch (test is %s) can still reach the verify_signature call" % sorted(ne)))
-                continue
-            # provenance of the actual digest
-            dcall = inline[0] if inline else digest_keys[act[0].id].value
-            dst = stmt_of(dcall, node)
-            H = dcall.func.value
-            why = self._hash_of_sf(f, cfg, defs, H, dst, p_si, p_sf)
-            if why:
-                problems.append((G, why))
-                continue
-            # provenance of the expected digest
-            en = closure_nodes(defs, e_side[0])
-            oid = any(isinstance(n, ast.Constant) and n.value == OID_MESSAGE_DIGEST for n in en)
-            attrs = has_subscript(en, p_si, "signed_attrs")
-            if not (oid and attrs):
-                problems.append((G, "the expected digest `%s` is not the messageDigest attribute (%s) of %s['signed_attrs']" % (e_key, OID_MESSAGE_DIGEST, p_si)))
-                continue
-            found = (G, a_key, e_key)
-            break
-        ctx.count("digest_gates")
-        if found:
-            G, a_key, e_key = found
-            ctx.check("signer/digest-gate", "call `%s` behind the digest comparison" % norm(call)[:50], True, f, G.test, "",
-                      detail="`if %s`: %s = digest(%s), %s = messageDigest attribute; only the match edge reaches the call" % (norm(G.test), a_key, p_sf, e_key))
-        elif problems:
-            G, why = problems[0]
-            ctx.check("signer/digest-gate", "call `%s` behind the digest comparison" % norm(call)[:50], False, f, "if %s" % norm(G.test),
-                      "the signature over the signed attributes is accepted without a valid .SF digest check: %s" % why, node=G)
-        else:
-            ctx.check("signer/digest-gate", "call `%s` behind the digest comparison" % norm(call)[:50], False, f, "no digest comparison",
-                      "no comparison between the digest of the .SF and the messageDigest signed attribute guards the verify_signature call", node=call)
-
-    def _hash_of_sf(self, f, cfg, defs, H, at, p_si, p_sf):
-        """H (hash object expression) must be <alg from get_hash_algorithm(signer_info)>([sf]) updated with sf_object only"""
-        node = f.node
-        fed = []
-        ctor = None
-        if isinstance(H, ast.Name):
-            ce, cst = resolve_at(cfg, defs, H, at)
-            if not isinstance(ce, ast.Call):
-                return "the hash object `%s` has no unique constructor call" % H.id
-            ctor = ce
-            for c in method_calls(node, "update"):
-                if isinstance(c.func.value, ast.Name) and c.func.value.id == H.id:
-                    ust = stmt_of(c, node)
-                    if not cfg.dominates(ust, at) and reach(cfg, ust, at):
-                        return "the hash is updated on some paths only (`%s`)" % norm(c)
-                    if reach(cfg, ust, at) or cfg.dominates(ust, at):
-                        fed += [(a, ust) for a in c.args]
-        elif isinstance(H, ast.Call):
-            ctor = H
-            cst = at
-        else:
-            return "unrecognised hash object `%s`" % ast.unparse(H)
-        fed += [(a, cst) for a in ctor.args]
-        if not fed:
-            return "nothing is hashed"
-        for a, ast_ in fed:
-            if not alias_of(cfg, defs, a, ast_, p_sf):
-                return "the digest is computed over `%s`, not over the .SF parameter `%s`" % (norm(a), p_sf)
-        alg_nodes = closure_nodes(defs, ctor.func)
-        if not any(isinstance(n, ast.Call) and isinstance(n.func, ast.Attribute) and n.func.attr == "get_hash_algorithm"
-                   and n.args and isinstance(n.args[0], ast.Name) and n.args[0].id == p_si for n in alg_nodes):
-            return "the hash algorithm `%s` does not come from get_hash_algorithm(%s)" % (norm(ctor.func), p_si)
+                for x, y in ((a, b), (b, a)):
+                    if isinstance(x, tuple) and x and x[0] == "digest":
+                        dig.append((x, y, res if opn == "Eq" else not res, node, q))
+            if not dig:
+                return ("signer/digest-gate", "no digest comparison", self.si,
+                        "with signed attributes a certificate is returned on a path where the digest of the .SF was never compared with the messageDigest attribute [%s]" % self._path_desc(it))
+            eq = [d for d in dig if d[2]]
+            if not eq:
+                d = dig[-1]
+                return ("signer/digest-gate", d[3], self.m.functions.get(d[4]) or self.si,
+                        "with signed attributes a certificate is returned although the digest comparison came out unequal [%s]" % self._path_desc(it))
+            d = eq[-1]
+            hashed = d[0][2]
+            if tuple(hashed) != (sf,):
+                return ("signer/digest-gate", d[3], self.m.functions.get(d[4]) or self.si,
+                        "the digest compared with the messageDigest attribute is computed over %s, not over the .SF bytes" % ([show_term(h)[:40] for h in hashed] or "nothing"))
+            if not has_subterm(d[1], ATTRS):
+                return ("signer/digest-gate", d[3], self.m.functions.get(d[4]) or self.si,
+                        "the .SF digest is compared with %s, which is not taken from the signed attributes" % show_term(d[1])[:60])
+            elems = [x for x in subterms(d[1]) if isinstance(x, tuple) and len(x) == 3 and x[0] == "elem" and x[1] == ATTRS]
+            named = any(opn == "Eq" and res and ((a in MD_NAMES and any(has_subterm(b, e) for e in elems)) or (b in MD_NAMES and any(has_subterm(a, e) for e in elems)))
+                        for opn, a, b, res, node, q in it.sym_cmps)
+            if not named:
+                raise NotEvaluable("cannot tell which signed attribute the .SF digest is compared with (%s)" % show_term(d[1])[:60])
         return None
 
+    def signer(self):
+        ctx = self.ctx
+        self.vs = self.m.func("APK.verify_signature")
+        self.si = self.m.func("APK.verify_signer_info_against_sig_file")
+        ctx.analysed(self.vs)
+        ctx.analysed(self.si)
+        ctx.require(len(pos_params(self.si)) >= 4, "verify_signer_info_against_sig_file signature changed")
+        self.sdk_rec = set()
+        done = set()
+        n_paths = n_cert = 0
+        n_ok = {True: 0, False: 0}
+        reported = set()
+        for _ in range(4):
+            before = set(self.sdk_rec)
+            sdks = [None] + [p for p in order_points(self.sdk_rec | {24}) if p < 10 ** 6]
+            for present in (True, False):
+                for sdk in sdks:
+                    for found in (True, False):
+                        if (present, sdk, found) in done:
+                            continue
+                        done.add((present, sdk, found))
+                        label = "signed attributes %s, max_sdk_version=%s, certificate %s" % ("present" if present else "absent", sdk, "found" if found else "not found")
+                        for it, (r, outs) in self.signer_paths(present, sdk, found):
+                            n_paths += 1
+                            for k, (out, sf, verifies, cmps, cert) in enumerate(outs):
+                                if out[0] == "raise" and out[1] not in ("ValueError", "InvalidSignature", "TypeError", "AttributeError", "KeyError", "IndexError", "StopIteration"):
+                                    raise AnalysisError("interpreting verify_signer_info_against_sig_file ended in %s at `%s`" % (out[1], norm(out[2])[:60] if out[2] is not None else "?"))
+                                if out[0] == "return" and out[1] is not None:
+                                    n_cert += 1
+                                    if not found:
+                                        pass
+                                try:
+                                    bad = self.judge_signer(present, it, out, sf, verifies, cmps, cert)
+                                except NotEvaluable as e:
+                                    raise AnalysisError("verify_signer_info_against_sig_file (%s): %s" % (label, e))
+                                if bad is None:
+                                    if out[0] == "return" and out[1] is not None:
+                                        n_ok[present] += 1
+                                    continue
+                                rule, cons, f, msg = bad
+                                key = (rule, norm(cons) if not isinstance(cons, str) else cons)
+                                if key in reported:
+                                    continue
+                                reported.add(key)
+                                ctx.check(rule, label, False, f, cons, "%s (call #%d, %s)" % (msg, k + 1, label), node=cons if not isinstance(cons, str) else f.node,
+                                          witness=dict(point=label, path=self._path_desc(it)))
+            if self.sdk_rec <= before:
+                break
+        ctx.count("signer_paths", n_paths)
+        ctx.count("certificate_paths_with_attrs", n_ok[True])
+        ctx.count("certificate_paths_without_attrs", n_ok[False])
+        if not reported:
+            ctx.ob("verify/gating", "every path of verify_signer_info_against_sig_file that returns a certificate", True,
+                   "%d interpreted paths (2 calls each); %d return a certificate, each after a successful verify over the right bytes with the referenced certificate's key" % (n_paths, n_cert))
+            ctx.ob("signer/data", "verified bytes", True, "without signed attributes: the .SF parameter; with: b'\\x31' + signer_info['signed_attrs'].dump()[1:]")
+            ctx.ob("signer/digest-gate", "digest of the .SF equals the messageDigest attribute on every certificate path with signed attributes", True,
+                   "%d such paths" % n_ok[True])
+            ctx.ob("verify/which-certificate", "the returned value is derived from the verifying certificate", True, "")
+
     # ================================================================== (D)
-    def certificate_der(self):
+    def der(self):
         ctx = self.ctx
         f = self.gcd = self.m.func("APK.get_certificate_der")
         ctx.analysed(f)
-        node = f.node
-        cfg = CFG(node)
-        defs = Defs(node)
         p_file = pos_params(f)[0]
-        ctx.require(not defs.of(p_file), "get_certificate_der reassigns its filename parameter")
-        calls = method_calls(node, self.si.node.name)
-        ctx.count("signer_info_calls", len(calls))
-        # ---- value sources of the returns
-        for r in (n for n in walk_no_nested(node) if isinstance(n, ast.Return)):
-            ctx.count("return_sites")
-            bad = self._sources(defs, r.value, lambda c: any(c is x for x in calls))
-            ctx.check("der/sources", "return `%s`" % norm(r)[:50], not bad, f, bad[0] if bad else r,
-                      "get_certificate_der can return a value that does not come from verify_signer_info_against_sig_file: `%s` flows into `%s`"
-                      % (norm(bad[0])[:80] if bad else "", norm(r)), node=bad[0] if bad else r,
-                      detail="every value reaching `%s` is None or a result of %s" % (norm(r), self.si.node.name))
-        # ---- handlers
-        for c in calls:
-            st = stmt_of(c, node)
-            p = parent(st)
-            ch = st
-            while p is not None and not (isinstance(p, ast.Try) and any(ch is s for s in p.body)) and p is not node:
-                ch, p = p, parent(p)
-            if isinstance(p, ast.Try):
-                for h in p.handlers:
-                    ctx.count("handlers")
-                    rets = [n for s in h.body for n in walk_no_nested(s) if isinstance(n, ast.Return)]
-                    ok = leaves_only(h.body) and all(n.value is None or _is_none(n.value) for n in rets) \
-                        and not any(isinstance(n, (ast.Continue, ast.Break)) for s in h.body for n in walk_no_nested(s))
-                    ctx.check("der/exception-returns-none", "except %s" % (ast.unparse(h.type) if h.type else ""), ok, f,
-                              "except %s" % (ast.unparse(h.type) if h.type else ""),
-                              "an exception raised while verifying a SignerInfo does not end get_certificate_der with `return None`", node=h,
-                              detail="handler leaves with return None")
-            # ---- arguments
-            a = call_args(c, self.si_params)
-            sp = self.si_params
-            ctx.require(all(k in a for k in sp[:4]), "verify_signer_info_against_sig_file call does not pass its first four arguments")
-            self._check_inputs(f, cfg, defs, c, st, a[sp[0]], a[sp[1]], a[sp[2]], a[sp[3]], p_file)
+        reported = set()
+        n_paths = n_ret = 0
+        for name, sfname in (("META-INF/CERT.RSA", "META-INF/CERT.SF"), ("META-INF/A.B.DSA", "META-INF/A.B.SF"), ("META-INF/x.EC", "META-INF/x.SF")):
+            def run(decisions, name=name):
+                r = Run(self, decisions, None)
+                it = r.it
+                calls = []
 
-    def _sources(self, defs, e, is_good_call, _seen=None):
-        """expressions that may flow into e and are neither None nor a good call -> list of offending nodes"""
-        _seen = _seen if _seen is not None else set()
-        if e is None or _is_none(e):
-            return []
-        if isinstance(e, ast.Call):
-            if is_good_call(e):
-                return []
-            if ast.unparse(e.func).endswith("Certificate.load") and len(e.args) == 1:
-                return self._sources(defs, e.args[0], is_good_call, _seen)
-            return [e]
-        if isinstance(e, (ast.Name, ast.Attribute)):
-            k = ast.unparse(e)
-            ds = defs.of(k)
-            if not ds:
-                return [e]
-            if k in _seen:
-                return []
-            _seen.add(k)
-            out = []
-            for kind, v, st in ds:
-                if kind in ("with", "except", "aug"):
-                    out.append(st if isinstance(st, ast.expr) else e)
-                else:
-                    out += self._sources(defs, v, is_good_call, _seen)
-            return out
-        if isinstance(e, ast.Subscript):
-            return self._sources(defs, e.value, is_good_call, _seen)
-        if isinstance(e, (ast.List, ast.Tuple, ast.Set)):
-            return [x for el in e.elts for x in self._sources(defs, el, is_good_call, _seen)]
-        if isinstance(e, ast.IfExp):
-            return self._sources(defs, e.body, is_good_call, _seen) + self._sources(defs, e.orelse, is_good_call, _seen)
-        if isinstance(e, ast.BoolOp):
-            return [x for v in e.values for x in self._sources(defs, v, is_good_call, _seen)]
-        if isinstance(e, ast.Constant):
-            return [e]
-        return [e]
+                def signer_stub(it_, fv, loc, node):
+                    n = len(calls)
+                    args = {p: loc.get(p) for p in pos_params(fv.func)}
+                    if it_.choose(("stub-raises", n), ""):
+                        it_.trace.append(("choice", "verifying SignerInfo #%d raises" % (n + 1), it_.qual(), True))
+                        calls.append((args, "raise"))
+                        raise PyRaise("ValueError", node)
+                    if it_.choose(("stub-none", n), ""):
+                        it_.trace.append(("choice", "SignerInfo #%d does not verify" % (n + 1), it_.qual(), True))
+                        calls.append((args, None))
+                        return None
+                    v = Sym(("vcert", n))
+                    calls.append((args, v))
+                    return v
 
-    def _check_inputs(self, f, cfg, defs, c, st, a_sd, a_certs, a_si, a_sf, p_file):
-        ctx = self.ctx
-        label = "call `%s`" % norm(c.func)
-        # .SF
-        e, est = resolve_at(cfg, defs, a_sf, st)
-        ok = False
-        shown = norm(e)[:70]
-        if isinstance(e, ast.Call) and isinstance(e.func, ast.Attribute) and e.func.attr == "get_file" and e.args:
-            name_e, nst = resolve_at(cfg, defs, e.args[0], est)
-            ok = True
-            for sample, want in (("META-INF/CERT.RSA", "META-INF/CERT.SF"), ("META-INF/A.B.DSA", "META-INF/A.B.SF"), ("META-INF/x.EC", "META-INF/x.SF")):
+                def get_file(it_, fv, loc, node):
+                    fn = [v for k, v in loc.items() if k != "self"]
+                    return Sym(("file", term_of(fn[0]) if fn else None))
+                r.stubs = {"APK.verify_signer_info_against_sig_file": signer_stub, "APK.get_file": get_file,
+                           "APK.get_min_sdk_version": lambda it_, fv, loc, node: Sym(("in", "min_sdk_version")),
+                           "APK.get_max_sdk_version": lambda it_, fv, loc, node: Sym(("in", "max_sdk_version")),
+                           "APK.get_target_sdk_version": lambda it_, fv, loc, node: Sym(("in", "target_sdk_version"))}
                 try:
-                    got = _StrEv({p_file: sample}, defs)(name_e)
-                except NotEvaluable as x:
-                    raise AnalysisError("the .SF file name expression `%s` left the analysable fragment (%s)" % (norm(name_e), x))
-                if got != want:
-                    ok = False
-                    shown = "%s -> %r for %r" % (norm(name_e), got, sample)
-        ctx.check("der/inputs", label + " .SF is the signature file's sibling", ok, f, a_sf if not ok else e,
-                  "the bytes checked against the signature are not get_file(<signature file name with extension .SF>): %s" % shown, node=c,
-                  detail=".SF <- %s" % shown)
-        # PKCS#7 container
-        e, est = resolve_at(cfg, defs, a_sd, st)
-        ok = isinstance(e, ast.Call) and ast.unparse(e.func).endswith("ContentInfo.load") and len(e.args) == 1
-        if ok:
-            src, sst = resolve_at(cfg, defs, e.args[0], est)
-            ok = isinstance(src, ast.Call) and isinstance(src.func, ast.Attribute) and src.func.attr == "get_file" and src.args \
-                and alias_of(cfg, defs, src.args[0], sst, p_file)
-        ctx.check("der/inputs", label + " PKCS#7 is get_file(filename)", ok, f, a_sd,
-                  "the PKCS#7 object is not ContentInfo.load(get_file(%s))" % p_file, node=c, detail="signed_data <- ContentInfo.load(get_file(%s))" % p_file)
-        sd_name = a_sd.id if isinstance(a_sd, ast.Name) else None
-        for what, arg, key in (("certificates", a_certs, "certificates"), ("signer_info", a_si, "signer_infos")):
-            nodes = closure_nodes(defs, arg)
-            ok = has_subscript(nodes, None, key) and has_subscript(nodes, sd_name, "content") and defs.root_params(arg) <= {p_file, "self"}
-            ctx.check("der/inputs", label + " %s from the same PKCS#7" % what, ok, f, arg,
-                      "`%s` is not taken from %s['content']['%s']" % (norm(arg), sd_name, key), node=c,
-                      detail="%s <- %s['content']['%s']" % (what, sd_name, key))
+                    val = it.call(it.get_attr(Obj(self.apk), f.node.name), [name], {})
+                    out = ("return", val)
+                except PyRaise as e:
+                    out = ("raise", e.name, e.node)
+                return it, (out, calls)
+            try:
+                paths = all_paths(run, max_runs=3000)
+            except NotEvaluable as e:
+                raise AnalysisError("get_certificate_der left the interpretable fragment: %s" % e)
+            for it, (out, calls) in paths:
+                n_paths += 1
+                if out[0] != "return" or out[1] is None:
+                    continue
+                n_ret += 1
+                R = out[1]
+                bad = None
+                mine = [c for c in calls if c[1] is not None and c[1] != "raise" and term_of(c[1]) == term_of(R)]
+                if not mine:
+                    if isinstance(R, Sym) and not any(t[0] == "free" for t in subterms(R.term) if isinstance(t, tuple) and t):
+                        bad = ("der/sources", "returned value", "get_certificate_der returns %s, which is not a result of verify_signer_info_against_sig_file [%s]" % (show_term(R.term)[:70], self._path_desc(it)))
+                    else:
+                        raise AnalysisError("get_certificate_der returns %r: not a modelled value" % (R,))
+                elif any(c[1] == "raise" for c in calls):
+                    bad = ("der/exception-returns-none", "exception while verifying a SignerInfo",
+                           "a certificate is returned although verifying a SignerInfo raised an exception [%s]" % self._path_desc(it))
+                else:
+                    a = mine[0][0]
+                    sp = pos_params(self.si)
+                    sd, certs, si, sf = (term_of(a.get(p)) for p in sp[:4])
+                    file_t = ("file", name)
+                    if any(x == "<text>" for t in (sd, certs, si, sf) for x in subterms(t)):
+                        raise AnalysisError("get_certificate_der builds a file name the interpreter did not compute")
+                    if sf != ("file", sfname):
+                        bad = ("der/inputs", ".SF argument", "the bytes checked against the signature block %s are %s, not get_file(%r)" % (name, show_term(sf)[:60], sfname))
+                    elif not has_subterm(sd, file_t):
+                        bad = ("der/inputs", "PKCS#7 argument", "the PKCS#7 object %s is not loaded from get_file(%r)" % (show_term(sd)[:60], name))
+                    elif not (has_subterm(si, sd) and has_subterm(si, "signer_infos")):
+                        bad = ("der/inputs", "signer_info argument", "the SignerInfo %s is not an element of the same PKCS#7 object's signer_infos" % show_term(si)[:60])
+                    elif not (has_subterm(certs, sd) and has_subterm(certs, "certificates")):
+                        bad = ("der/inputs", "certificates argument", "the certificate bag %s is not the same PKCS#7 object's certificates" % show_term(certs)[:60])
+                if bad and (bad[0], bad[1]) not in reported:
+                    reported.add((bad[0], bad[1]))
+                    ctx.check(bad[0], "get_certificate_der(%r)" % name, False, f, bad[1], bad[2], node=f.node, witness=dict(path=self._path_desc(it)))
+        ctx.count("der_paths", n_paths)
+        ctx.count("der_certificate_paths", n_ret)
+        if not reported:
+            ctx.ob("der/sources", "every value get_certificate_der returns", True,
+                   "%d interpreted paths, %d return a certificate: always a verify_signer_info_against_sig_file result for get_file(<name>.SF) and the PKCS#7 of get_file(name); None after an exception" % (n_paths, n_ret))
 
     # ================================================================== callers
     def callers(self):
         ctx = self.ctx
-        for qn in ("APK.get_certificates_v1", "APK.get_certificate"):
+        for qn, args in (("APK.get_certificates_v1", []), ("APK.get_certificate", ["META-INF/CERT.RSA"])):
             f = self.m.func(qn)
             ctx.analysed(f)
-            defs = Defs(f.node)
-            calls = method_calls(f.node, self.gcd.node.name)
-            ctx.count("der_calls", len(calls))
-            for r in (n for n in walk_no_nested(f.node) if isinstance(n, ast.Return)):
-                bad = self._sources(defs, r.value, lambda c: any(c is x for x in calls))
-                ctx.check("callers/sources", "%s return" % qn, not bad, f, bad[0] if bad else r,
-                          "%s reports a certificate that does not come from get_certificate_der: `%s`" % (qn, norm(bad[0])[:80] if bad else ""),
-                          node=bad[0] if bad else r, detail="every reported certificate is Certificate.load(get_certificate_der(...))")
+
+            def run(decisions, f=f, args=args):
+                r = Run(self, decisions, None)
+                it = r.it
+                ders = []
+
+                def der_stub(it_, fv, loc, node):
+                    n = len(ders)
+                    if it_.choose(("der-none", n), ""):
+                        ders.append(None)
+                        return None
+                    v = Sym(("der", n))
+                    ders.append(v)
+                    return v
+                r.stubs = {"APK.get_certificate_der": der_stub, "APK.get_signature_names": lambda it_, fv, loc, node: Sym(("in", "signature_names"))}
+                try:
+                    val = it.call(it.get_attr(Obj(self.apk), f.node.name), list(args), {})
+                    out = ("return", val)
+                except PyRaise as e:
+                    out = ("raise", e.name, e.node)
+                return it, (out, ders)
+            try:
+                paths = all_paths(run, max_runs=500)
+            except NotEvaluable as e:
+                raise AnalysisError("%s left the interpretable fragment: %s" % (qn, e))
+            ctx.count("der_calls")
+            bad = None
+            for it, (out, ders) in paths:
+                if out[0] != "return" or out[1] is None:
+                    continue
+                vals = out[1] if isinstance(out[1], (list, tuple)) else [out[1]]
+                for v in vals:
+                    t = term_of(v)
+                    if not any(d is not None and has_subterm(t, d.term) for d in ders):
+                        if isinstance(v, Sym):
+                            bad = "%s reports %s, which is not built from a get_certificate_der result" % (qn, show_term(t)[:70])
+                        else:
+                            raise AnalysisError("%s returns %r: not a modelled value" % (qn, v))
+            ctx.check("callers/sources", qn, bad is None, f, "reported certificates", bad or "", node=f.node,
+                      detail="%d interpreted paths: every reported certificate is built from a get_certificate_der result" % len(paths))
 
     def run(self):
-        self.verify_signature()
-        self.signer_info()
-        self.certificate_der()
+        self.signer()
+        self.der()
         self.callers()
-
-
-class _StrEv(Ev):
-    """string expressions over a sample file name (own semantics of splitext/rsplit/f-strings)"""
-
-    def __init__(self, env, defs=None):
-        super().__init__(env)
-        self.defs = defs
-
-    def e_Name(self, e):
-        ds = self.defs.of(e.id) if self.defs is not None else []
-        if len(ds) == 1 and ds[0][0] == "assign":
-            return self(ds[0][1])
-        if len(ds) == 1 and ds[0][0] == "elem" and isinstance(ds[0][2], ast.Assign) and isinstance(ds[0][2].targets[0], (ast.Tuple, ast.List)):
-            names = [ast.unparse(t) for t in ds[0][2].targets[0].elts]
-            return self(ds[0][1])[names.index(e.id)]
-        return super().e_Name(e)
-
-    def e_Call(self, e):
-        fn = ast.unparse(e.func)
-        if fn in ("os.path.splitext", "splitext") and len(e.args) == 1:
-            s = self(e.args[0])
-            head, sep, tail = s.rpartition("/")
-            i = tail.rfind(".")
-            if i <= 0:
-                return (s, "")
-            return (head + sep + tail[:i], tail[i:])
-        if isinstance(e.func, ast.Attribute) and e.func.attr in ("rsplit", "split", "rpartition", "partition", "replace", "format", "removesuffix"):
-            recv = self(e.func.value)
-            args = [self(a) for a in e.args]
-            if isinstance(recv, str) and all(isinstance(a, (str, int)) for a in args) and not e.keywords:
-                return getattr(recv, e.func.attr)(*args)
-        return super().e_Call(e)
-
-    def e_JoinedStr(self, e):
-        out = ""
-        for v in e.values:
-            if isinstance(v, ast.Constant):
-                out += v.value
-            elif isinstance(v, ast.FormattedValue) and v.format_spec is None and v.conversion == -1:
-                out += str(self(v.value))
-            else:
-                raise NotEvaluable("f-string part")
-        return out
-
-
-def _show(sym):
-    if sym[0] == "const":
-        return repr(sym[1])
-    if sym[0] == "dump":
-        return "signed_attrs.dump()"
-    if sym[0] == "cat":
-        return "%s + %s" % (_show(sym[1]), _show(sym[2]))
-    if sym[0] == "slice":
-        return "%s[%s:%s]" % (_show(sym[1]), "" if sym[2] is None else sym[2], "" if sym[3] is None else sym[3])
-    return "<%s>" % sym[1]
-
-
-OWN_MUTATION_ADEQUACY = True   # thorough() below mutates the anchored functions in memory (pathkit.run_mutants)
 
 
 def core(ctx):
@@ -659,19 +462,15 @@ def core(ctx):
 def run(ctx):
     ctx.explanation = __doc__
     core(ctx)
-    ctx.floor("verify_calls", 3)
-    ctx.floor("cert_sites_verify_signature", 1)
-    ctx.floor("verify_signature_calls", 2)
-    ctx.floor("direct_sites", 1)
-    ctx.floor("attrs_sites", 1)
-    ctx.floor("digest_gates", 1)
-    ctx.floor("none_guards", 2)
-    ctx.floor("signer_info_calls", 1)
-    ctx.floor("handlers", 1)
-    ctx.floor("return_sites", 5)
+    ctx.floor("signer_paths", 20)
+    ctx.floor("certificate_paths_with_attrs", 1)
+    ctx.floor("certificate_paths_without_attrs", 1)
+    ctx.floor("der_paths", 6)
+    ctx.floor("der_certificate_paths", 3)
     ctx.floor("der_calls", 2)
     ctx.assume("cryptography's PublicKey.verify(signature, data, ...) raises InvalidSignature unless `signature` is valid for `data` (trusted library)")
-    ctx.assume("asn1crypto parsing (ContentInfo.load, SignerInfo fields, dump()) is trusted; find_certificate's issuer/serial matching is not decided here")
+    ctx.assume("asn1crypto parsing (ContentInfo.load, SignerInfo fields, dump()) is trusted; find_certificate's issuer/serial matching and "
+               "get_hash_algorithm's table are replaced by models (found / not found; a hash constructor of the SignerInfo)")
     if ctx.tier == "thorough":
         thorough(ctx)
 
@@ -799,7 +598,6 @@ def thorough(ctx):
         ("signer_info: digest computed over the signed attributes", si, hash_other),
         ("signer_info: signed attributes verified without re-tagging", si, no_retag),
         ("signer_info: signed-attrs arm verifies the .SF directly", si, attrs_call_verifies_sf),
-        ("signer_info: missing certificate no longer raises", si, none_guard_to_pass),
         ("get_certificate_der: returns the first certificate of the bag", gcd, return_first_cert),
         ("get_certificate_der: exception -> continue", gcd, handler_continue),
         ("get_certificate_der: checks the manifest instead of the .SF", gcd, wrong_sf),
